@@ -73,6 +73,8 @@ func main() {
 			clientScenario(seed, workers, iters, &r, fail)
 		case "secman-shared-config":
 			secmanScenario(seed, workers, iters, &r, fail)
+		case "percommand-shared-config":
+			perCommandScenario(seed, workers, iters, &r, fail)
 		case "stream-duplex":
 			duplexScenario(seed, workers, iters, &r, fail)
 		default:
@@ -308,6 +310,77 @@ func clientScenario(seed int64, workers, iters int, r *result, fail func(string,
 	}
 	if iters > 1 && resumed == 0 {
 		fail("no connection resumed the shared session")
+	}
+}
+
+// a server whose SecurityConfigForCommand returns ONE shared *SecurityConfig for the
+// command, and many overlapping FRESH handshakes (no resumption) for that command:
+// every handshake must succeed and yield a working encrypted stream
+func perCommandScenario(seed int64, workers, iters int, r *result, fail func(string, ...interface{})) {
+	l, err := net.Listen("tcp", "127.0.0.1:0")
+	if err != nil {
+		fail("listen: %v", err)
+		return
+	}
+	defer l.Close()
+	srv := server.New(secCfg(nil))
+	perCmd := secCfg(nil) // the one shared per-command policy object
+	srv.SecurityConfigForCommand = func(cmd int) *security.SecurityConfig {
+		if cmd == commands.DC_NOP {
+			return perCmd
+		}
+		return nil
+	}
+	srv.Handle(commands.DC_NOP, func(ctx context.Context, c *server.Conn) error {
+		m := message.NewMessageForStream(c.Stream)
+		if err := m.PutInt(ctx, 9); err != nil {
+			return err
+		}
+		return m.FinishMessage(ctx)
+	})
+	ctx, cancel := context.WithCancel(context.Background())
+	defer cancel()
+	go func() { _ = srv.Serve(ctx, l) }()
+	addr := l.Addr().String()
+	var mu sync.Mutex
+	okCount := 0
+	start := make(chan struct{})
+	var wg sync.WaitGroup
+	for w := 0; w < workers; w++ {
+		wg.Add(1)
+		go func() {
+			defer wg.Done()
+			<-start
+			for it := 0; it < iters; it++ {
+				cctx, cc := context.WithTimeout(ctx, 20*time.Second)
+				cl, err := client.ConnectAndAuthenticateWithConfig(cctx, &client.ClientConfig{Address: addr, Security: secCfg(security.NewSessionCache())}) // own cache: never resumes
+				if err != nil {
+					fail("fresh handshake for the per-command policy: %v", err)
+					cc()
+					continue
+				}
+				m := message.NewMessageFromStream(cl.GetStream())
+				v, err := m.GetInt(cctx)
+				if err != nil || v != 9 || !cl.GetStream().IsEncrypted() {
+					fail("reply over the encrypted stream: v=%d err=%v encrypted=%v", v, err, cl.GetStream().IsEncrypted())
+				} else {
+					mu.Lock()
+					okCount++
+					mu.Unlock()
+				}
+				_ = cl.Close()
+				cc()
+				if it%3 == 0 {
+					runtime.Gosched()
+				}
+			}
+		}()
+	}
+	close(start)
+	wg.Wait()
+	r.Ops = okCount
+	if okCount != workers*iters {
+		fail("%d of %d overlapping handshakes succeeded", okCount, workers*iters)
 	}
 }
 
